@@ -28,9 +28,11 @@ ASSUMPTIONS = [
     "cases are generated where the documented loop completes (known findings of C01 excluded)",
     "a foreign entropy source bound at import time (from random import random) is seen through Python's global random state and through the twin runs, not through the call counters",
 ]
-FLOOR = {"points_compared": {"quick": 60000, "thorough": 1500000}, "fresh_process_runs": {"quick": 60, "thorough": 600},
-         "interleaved_schedules": {"quick": 120, "thorough": 2500}, "boxes_compared": {"quick": 800, "thorough": 10000},
-         "sandwich_runs": {"quick": 250, "thorough": 3000}}
+FLOOR = {"points_compared": {"quick": 60000, "thorough": 480000},
+         "fresh_process_runs": {"quick": 60, "thorough": 480},
+         "interleaved_schedules": {"quick": 120, "thorough": 960},
+         "boxes_compared": {"quick": 600, "thorough": 4800},
+         "sandwich_runs": {"quick": 150, "thorough": 1200}}
 WALL = {"quick": 1200, "thorough": 4 * 3600}
 
 
